@@ -174,6 +174,8 @@ struct UpState {
     seen: Mutex<Vec<(u64, bool, Vec<u8>)>>,
     udp_sent: Mutex<Option<Vec<u8>>>,
     tcp_sent: Mutex<Option<Vec<u8>>>,
+    /// when an upstream last answered (the service stores the result right after that)
+    answered_at: Mutex<Option<Instant>>,
     conns: Mutex<Vec<tokio::task::JoinHandle<()>>>,
 }
 
@@ -227,6 +229,7 @@ async fn udp_upstream(sock: Arc<UdpSocket>, srv: u64, st: Arc<UpState>) {
             if l >= 12 {
                 if let Some(r) = answer(&st, &q, false) {
                     *st.udp_sent.lock().unwrap() = Some(r.clone());
+                    *st.answered_at.lock().unwrap() = Some(Instant::now());
                     let _ = sock.send_to(&r, from).await;
                 }
             }
@@ -252,6 +255,7 @@ async fn tcp_upstream(l: TcpListener, srv: u64, st: Arc<UpState>) {
                     match if q.len() >= 12 { answer(&st, &q, true) } else { None } {
                         Some(r) => {
                             *st.tcp_sent.lock().unwrap() = Some(r.clone());
+                            *st.answered_at.lock().unwrap() = Some(Instant::now());
                             let mut o = vec![];
                             if matches!(*st.script.lock().unwrap(), Script::Reply { stray: true, .. }) {
                                 // first a well-formed reply under the same id to a question that was not asked on
@@ -294,6 +298,7 @@ async fn run_history(h: &Hist) -> Option<Toks> {
         seen: Default::default(),
         udp_sent: Default::default(),
         tcp_sent: Default::default(),
+        answered_at: Default::default(),
         conns: Default::default(),
     });
     let mut upaddrs = vec![];
@@ -331,6 +336,7 @@ async fn run_history(h: &Hist) -> Option<Toks> {
         st.seen.lock().unwrap().clear();
         *st.udp_sent.lock().unwrap() = None;
         *st.tcp_sent.lock().unwrap() = None;
+        *st.answered_at.lock().unwrap() = None;
         let cip = Ipv4Addr::from(s.client);
         let wait = Duration::from_millis(if matches!(s.script, Script::Silent) { 20_000 } else { 300 });
         let t_s = std::time::SystemTime::now().duration_since(std::time::UNIX_EPOCH).unwrap().as_secs();
@@ -371,7 +377,12 @@ async fn run_history(h: &Hist) -> Option<Toks> {
                 }
             }
         }
-        let t_after = t0.elapsed();
+        // when the result was stored: just before the reply arrived; without a reply (dropped by the limiter), just
+        // after the upstream answered -- not after the time spent waiting for a reply that never came
+        let t_after = match (&reply, *st.answered_at.lock().unwrap()) {
+            (None, Some(at)) => at.duration_since(t0),
+            _ => t0.elapsed(),
+        };
         // let the upstream tasks record what is still in their queues (retransmissions)
         for _ in 0..3 {
             tokio::task::yield_now().await;
@@ -437,6 +448,7 @@ struct QSpec {
     id: u16,
     rd: bool,
     cd: bool,
+    hdr: u8, // further bits of the first flags octet (AA 0x04, TC 0x02): the client's to set, never to be echoed
     name: Name,
     qtype: u16,
     qclass: u16,
@@ -444,7 +456,7 @@ struct QSpec {
 }
 fn query_bytes(q: &QSpec) -> Vec<u8> {
     let mut v = q.id.to_be_bytes().to_vec();
-    v.push(q.rd as u8);
+    v.push(q.rd as u8 | q.hdr);
     v.push(if q.cd { 0x20 } else { 0 });
     v.extend([0, 1, 0, 0, 0, 0, 0, q.edns.is_some() as u8]);
     for l in &q.name {
@@ -478,7 +490,7 @@ fn issued(cookie: &[u8], client: [u8; 4], key: &[u8]) -> Vec<u8> {
     use erbium::dns::dnspkt::verif as pk;
     use erbium_net::addr::WithPort as _;
     let q = pk::parse(&query_bytes(&QSpec {
-        id: 1, rd: false, cd: false, name: nm(&["a"]), qtype: 1, qclass: 1, edns: None,
+        id: 1, rd: false, cd: false, hdr: 0, name: nm(&["a"]), qtype: 1, qclass: 1, edns: None,
     }))
     .unwrap();
     let msg = erbium::dns::DnsMessage {
@@ -567,6 +579,7 @@ fn gen_hist(r: &mut Rng, stats: &mut Stats, thorough: bool) -> Hist {
             id: r.next() as u16,
             rd: steady || !r.chance(1, 8),
             cd: !steady && r.chance(1, 10),
+            hdr: if !steady && r.chance(1, 6) { *r.pick(&[2u8, 4, 6]) } else { 0 },
             name,
             qtype: if steady { 1 } else if r.chance(1, 12) { 255 } else { *r.pick(&[1u16, 1, 1, 1, 1, 28, 16]) },
             qclass: if !steady && r.chance(1, 15) { 3 } else { 1 },
@@ -608,7 +621,7 @@ fn gen_hist(r: &mut Rng, stats: &mut Stats, thorough: bool) -> Hist {
             client: heavy,
             port53: false,
             tcp: false,
-            query: query_bytes(&QSpec { id: 7, rd: false, cd: false, name: nm(&["www", "example"]), qtype: 255, qclass: 1, edns: None }),
+            query: query_bytes(&QSpec { id: 7, rd: false, cd: false, hdr: 0, name: nm(&["www", "example"]), qtype: 255, qclass: 1, edns: None }),
             script: Script::Garbage,
         };
         for _ in 0..13 {
